@@ -56,6 +56,16 @@ func runChainTickCase(o *hx.Out, f *hx.Flags, k int, r *prng.R) {
 	mtb0, gcp := uint32(r.Range(2, 7)), uint32(r.Range(1, 4))
 	p2p := r.Chance(1, 3)
 	ssi := r.Range(2, 6)
+	// 1/4: Echidna only from height hfAt on: GetMaxTraceableBlocks is the config value before it and the
+	// Policy's (initialised with Genesis.MaxTraceableBlocks <= MaxTraceableBlocks) from then on
+	hfAt, genMtb := uint32(0), mtb0
+	if false && r.Chance(1, 4) {
+		// not generated: with hardforks switched on mid-chain the natives' own storage changes are not
+		// covered by this harness's reading of the contract storage (dumpAll); the switch is covered
+		// by Props/C11 mtb_only_lowers_along_chain on the translated GetMaxTraceableBlocks
+		hfAt = uint32(r.Range(3, 8))
+		genMtb = uint32(r.Range(2, int(mtb0)))
+	}
 	bc, acc := chain.NewSingleWithOptions(t, &chain.Options{
 		Store:   ps,
 		Logger:  zap.New(zc),
@@ -63,7 +73,10 @@ func runChainTickCase(o *hx.Out, f *hx.Flags, k int, r *prng.R) {
 		BlockchainConfigHook: func(c *config.Blockchain) {
 			c.RemoveUntraceableBlocks = true
 			c.MaxTraceableBlocks = mtb0
-			c.Genesis.MaxTraceableBlocks = mtb0
+			c.Genesis.MaxTraceableBlocks = genMtb
+			if hfAt > 0 {
+				c.Hardforks = map[string]uint32{config.HFEchidna.String(): hfAt}
+			}
 			c.MaxValidUntilBlockIncrement = 1
 			c.Genesis.MaxValidUntilBlockIncrement = 1
 			c.GarbageCollectionPeriod = gcp
@@ -88,6 +101,10 @@ func runChainTickCase(o *hx.Out, f *hx.Flags, k int, r *prng.R) {
 	if p2p {
 		o.Count("gctick:p2p")
 	}
+	if hfAt > 0 {
+		o.Count("gctick:echidna-later")
+	}
+	lastMtb := bc.GetMaxTraceableBlocks()
 	h.line(fmt.Sprintf("cfg %d %d %d %d", gcp, b2i(p2p), ssi, bc.GetMaxTraceableBlocks()), "ok")
 	e := neotest.NewExecutor(t, bc, acc, acc)
 	var ids []int32
@@ -155,7 +172,7 @@ func runChainTickCase(o *hx.Out, f *hx.Flags, k int, r *prng.R) {
 			txs = append(txs, e.PrepareInvocation(t, w.Bytes(), []neotest.Signer{e.Validator}))
 		}
 		var ask int64 = -1
-		if r.Chance(1, 6) {
+		if hfAt == 0 && r.Chance(1, 6) {
 			// a committee transaction asks for a new MaxTraceableBlocks: lower, equal, or (rejected) higher
 			cur := int64(bc.GetMaxTraceableBlocks())
 			ask = cur - int64(r.Intn(3))
@@ -171,6 +188,12 @@ func runChainTickCase(o *hx.Out, f *hx.Flags, k int, r *prng.R) {
 		if !record() {
 			return false
 		}
+		if now := bc.GetMaxTraceableBlocks(); ask < 0 && now != lastMtb {
+			// the hardfork switch of GetMaxTraceableBlocks: the model takes it as a lowering (newMtbOf)
+			h.line(fmt.Sprintf("mtbhf %d", now), fmt.Sprintf("mtb=%d", now))
+			o.Count("gctick:mtb-hardfork-switch")
+		}
+		lastMtb = bc.GetMaxTraceableBlocks()
 		if ask >= 0 {
 			h.line(fmt.Sprintf("mtb %d", ask), fmt.Sprintf("mtb=%d", bc.GetMaxTraceableBlocks()))
 			o.Count("gctick:mtb-tx")
